@@ -378,6 +378,63 @@ def exec_workflow(case):
                 check_wtml_vs_disk(out, pos, f"tile_fits TAN of {len(paths)} inputs forming a {ww}x{hh} mosaic", L)
                 compare_builder_with_wtml(bld, out, wf)
                 nt = L >= 1
+            elif wf == "tile-multi-tan-cli":
+                from .. import mtgen
+
+                ind = os.path.join(d, "in")
+                os.makedirs(ind)
+                paths, exp, box = mtgen.write_inputs(case["mosaic"], ind)
+                with toasty_call("workflow", "toasty tile-multi-tan"):
+                    run_cli(["tile-multi-tan", "--parallelism", "1", "--outdir", out] + list(paths))
+                    canvas, L = mtgen.expected_canvas(exp)
+                    if case["cascade"] and L >= 1:
+                        run_cli(["cascade", "--start", str(L), "--parallelism", "1", out])
+                hh, ww = exp.shape
+                pos = set()
+                for ty in range(2**L):
+                    for tx in range(2**L):
+                        if not np.isnan(canvas[256 * ty : 256 * ty + 256, 256 * tx : 256 * tx + 256]).all():
+                            pos.add((L, tx, ty))
+                if case["cascade"]:
+                    for p in list(pos):
+                        for lev in range(L):
+                            pos.add(rp.ancestor_at(p, lev))
+                check_wtml_vs_disk(out, pos, f"tile-multi-tan CLI of {len(paths)} inputs forming a {ww}x{hh} mosaic{' + cascade' if case['cascade'] else ''}", L)
+                cls += [f"levels{L}", "cascaded" if case["cascade"] else "base-only"]
+                nt = L >= 1 and case["cascade"]
+            elif wf == "tile-wwtl":
+                from wwt_data_formats.filecabinet import FileCabinetWriter
+
+                w, h = case["size"]
+                tests = os.path.join(os.path.dirname(__import__("toasty").__file__), "tests")
+                src = os.path.join(tests, "layercontainer.wwtxml")
+                if not os.path.isfile(src):
+                    raise HarnessError("the repository's sample layer file is missing: " + src)
+                fw = FileCabinetWriter()
+                with open(src, "rb") as f:
+                    fw.add_file_with_data("55cb0cce-c44a-4a44-a509-ea66fce643a5.wwtxml", f.read())
+                import io
+
+                bio = io.BytesIO()
+                PILImage.fromarray(make_rgb(w, h, case["salt"])).save(bio, format="JPEG")
+                fw.add_file_with_data("55cb0cce-c44a-4a44-a509-ea66fce643a5\\7ecb6411-e4ee-4dfa-90ef-77d6f486c7d2.jpg", bio.getvalue())
+                wwtl = os.path.join(d, "image.wwtl")
+                with open(wwtl, "wb") as f:
+                    fw.emit(f)
+                args = ["tile-wwtl", "--outdir", out]
+                if case["placeholder"]:
+                    args.append("--placeholder-thumbnail")
+                args.append(wwtl)
+                with toasty_call("workflow", "toasty tile-wwtl"):
+                    run_cli(args)
+                    pos, L = study_positions(w, h, case["cascade"])
+                    if case["cascade"] and L >= 1:
+                        run_cli(["cascade", "--start", str(L), "--parallelism", "1", out])
+                if L == 0:
+                    pos = {(0, 0, 0)}
+                check_wtml_vs_disk(out, pos, f"tile-wwtl of a {w}x{h} layer image{' + cascade' if case['cascade'] else ''}", L)
+                cls += [f"levels{L}", "cascaded" if case["cascade"] else "base-only"]
+                nt = len(set(p[0] for p in pos)) >= 2
             else:
                 raise HarnessError("unknown workflow " + wf)
     finally:
@@ -431,7 +488,7 @@ def compare_builder_with_wtml(bld, out, what, add_place=True):
 def strat_workflow(draw, tier):
     from .. import wcsgen
 
-    wf = draw(st.sampled_from(["tile-study", "tile-study", "tile-allsky", "tile_fits_tan", "tile_fits_toast", "tile_fits_tan_multi", "pipeline"]))
+    wf = draw(st.sampled_from(["tile-study", "tile-study", "tile-allsky", "tile_fits_tan", "tile_fits_toast", "tile_fits_tan_multi", "pipeline", "tile-multi-tan-cli", "tile-wwtl"]))
     case = {"workflow": wf, "salt": draw(st.integers(0, 50))}
     # (images of a few pixels cannot be thumbnailed by PIL; that is not this property's subject)
     small = st.one_of(st.integers(48, 700), st.sampled_from([256, 257, 512, 513, 300]))
@@ -446,6 +503,15 @@ def strat_workflow(draw, tier):
                     projection=draw(st.sampled_from(["plate-carree", "plate-carree-galactic", "plate-carree-ecliptic", "plate-carree-planet", "plate-carree-planet-zeroleft", "plate-carree-planet-zeroright", "plate-carree-panorama"])))
     elif wf == "pipeline":
         case.update(size=[draw(small), draw(small)])
+    elif wf == "tile-wwtl":
+        case.update(size=[draw(small), draw(small)], cascade=draw(st.booleans()), placeholder=draw(st.booleans()))
+    elif wf == "tile-multi-tan-cli":
+        from .. import mtgen
+
+        m = draw(mtgen.mosaic_cases(tier, max_size=700, max_inputs=4))
+        m["k"] = 1
+        case["mosaic"] = m
+        case["cascade"] = draw(st.booleans())
     elif wf == "tile_fits_tan_multi":
         from .. import mtgen
 
@@ -646,7 +712,7 @@ PARTS = [
     Part("path_schemes_all", exec_scheme, enumerate=enum_schemes, shards={"quick": 8, "thorough": 8}, describe="both schemes x four formats x every position to depth 6"),
     Part("path_schemes_deep", exec_scheme, strategy=strat_scheme, examples={"quick": 300, "thorough": 20000}, shards={"quick": 4, "thorough": 16}, describe="generated positions to depth 20"),
     Part("workflows", exec_workflow, strategy=strat_workflow, examples={"quick": 192, "thorough": 3000}, shards={"quick": 16, "thorough": 16},
-         budget_s={"quick": 80, "thorough": 1500}, describe="tile-study / tile-allsky (+cascade) CLI, tile_fits TAN and TOAST: WTML vs directory tree, returned Builder vs WTML"),
+         budget_s={"quick": 80, "thorough": 1500}, describe="tile-study / tile-allsky / tile-multi-tan / tile-wwtl (+cascade) CLI, tile_fits TAN and TOAST, pipeline: WTML vs directory tree, returned Builder vs WTML"),
     Part("tile_fits_histories", exec_history, strategy=strat_history, examples={"quick": 160, "thorough": 3000}, shards={"quick": 16, "thorough": 16},
          budget_s={"quick": 80, "thorough": 1500}, describe="histories of tile_fits calls on one output directory (fresh / repeat / override / different parallel)"),
 ]
